@@ -300,7 +300,7 @@ func TestC03(t *testing.T) {
 			pair.Meta["pad.bin"] = FileMeta{From: "pad.bin", Op: "constant fill grows"}
 			Ev.Probe("constant_fill_file_grows")
 		}
-		assets := rapid.IntRange(0, 7).Draw(rt, "assets") == 0
+		assets := rapid.IntRange(0, 3).Draw(rt, "assets") == 0
 		if assets {
 			// "many small assets": every entry of the patch is one operation long (a new file in one
 			// DATA op, or a file reused whole), so no series has a second loop turn
